@@ -18,7 +18,21 @@ def dc_group(fn, w, locals_, rng=""):
         timeout=300)
 
 
+DB_P = "parse_db"
+
 GROUPS = [
+    Group(name="C05/parse_db[bounded]", unity="C05/u_db.cpp", entry="h_db",
+          functions=[("parse_db", DD, "harness, bounded unwinding")], defines=["MAXTOK=4"],
+          unwind=5, bounded="operand list of at most 2 operands (4 tokens), quoted strings of 0..3 characters without backslashes; values, addresses, pass symbolic",
+          checks=["--bounds-check", "--pointer-check", "--signed-overflow-check"], timeout=600),
+    Group(name="C05/parse_data_fill", unity="C05/u_misc.cpp", entry="h_fill", functions=[("parse_data_fill", DD, "harness+loop-contract")],
+          loops="C05/fill.loops.json", expected_loops=1, checks=["--bounds-check", "--pointer-check", "--signed-overflow-check"], timeout=300),
+    Group(name="C05/parse_resb", unity="C05/u_misc.cpp", entry="h_resb", functions=[("parse_resb", DD, "harness (loop-free)")],
+          checks=["--bounds-check", "--pointer-check", "--signed-overflow-check"], timeout=300),
+    Group(name="C05/parse_align_bytes", unity="C05/u_misc.cpp", entry="h_align_bytes", functions=[("parse_align_bytes", DD, "harness+loop-contract"), ("parse_align", DD, "loop-contract")],
+          loops="C05/align.loops.json", expected_loops=1, checks=["--bounds-check", "--pointer-check", "--signed-overflow-check", "--div-by-zero-check"], timeout=300),
+    Group(name="C05/parse_align_bits", unity="C05/u_misc.cpp", entry="h_align_bits", functions=[("parse_align_bits", DD, "harness+loop-contract"), ("parse_align", DD, "loop-contract")],
+          loops="C05/align.loops.json", expected_loops=1, checks=["--bounds-check", "--pointer-check", "--signed-overflow-check", "--div-by-zero-check"], timeout=300),
     dc_group("parse_dc16", 2, ["data32", "data16"], "g_kval >= -32768 && g_kval <= 65535 &&"),
     dc_group("parse_dc32", 4, ["var", "udata32"]),
     dc_group("parse_dc64", 8, ["var", "udata64"]),
